@@ -32,7 +32,10 @@ def plan(tier, seed):
         for i in range(10):
             shards.append({"kind": "faults", "tier": tier, "seed": seed, "shard": i, "n": 5, "subprocess": True})
         shards.append({"kind": "realnet", "tier": tier, "seed": seed, "shard": 200, "subprocess": True})
+        shards.append({"kind": "limit", "tier": tier, "seed": seed, "mtu": 512, "shard": 300, "subprocess": True})
     else:
+        for i, mtu in enumerate((512, 1100, 1500)):
+            shards.append({"kind": "limit", "tier": tier, "seed": seed, "mtu": mtu, "shard": 300 + i, "subprocess": True})
         shards.append({"kind": "realnet", "tier": tier, "seed": seed, "shard": 200, "subprocess": True})
         mtus = sorted(set(MTUS_QUICK + list(range(512, 1501, 21))))
         for i, mtu in enumerate(mtus):
@@ -88,6 +91,45 @@ def run_sizes(cfg, out, props=None, tag="C05"):
         if len(out["samples"]) < 2:
             out["samples"].append({"scenario": "sizes", "mtu": cfg["mtu"], "apis": APIS, "lengths": sizes[:60]})
         collect(run, out, props, {"kind": "sizes", "mtu": cfg["mtu"]})
+    return n
+
+
+def run_limit(cfg, out):
+    """the top of the size range: messages of exactly MAX_FRAGMENTS fragments (the fragmentation limit), one byte and one
+    fragment less, from both sides, over a clean link - 'any size from 0 bytes to the fragmentation limit'"""
+    r = rng("C05", cfg["seed"], "limit", cfg["mtu"])
+    with T.Run(r, mtu=cfg["mtu"], dt=1 / 60, light=True, bitfield=False) as run:
+        w = run.world
+        w.net.heal(0.004)
+        c = w.connect_client()
+        P = run.C.Packet
+        limit = P.MAX_FRAGMENT_SIZE * P.MAX_FRAGMENTS
+        plan_ = [("client", r.choice(["send_guaranteed", "send"]), limit)]
+        if cfg["tier"] == "thorough":
+            plan_ += [("server", "send", limit - r.randint(1, P.MAX_FRAGMENT_SIZE - 1)), ("client", "send", limit - P.MAX_FRAGMENT_SIZE - r.randint(0, 5)),
+                      ("server", "send_guaranteed", limit), ("client", "send", limit - 1)]
+        ups = c.updates_per_step
+        n = 0
+        for side, api, size in plan_:
+            ep = c if side == "client" else run.sconn(c)
+            if ep is None or not run.open(c):
+                break
+            c.updates_per_step = 8
+            rec = run.app.send(ep, side, size, -1, api=api, with_cb=True, keep_payload=False)
+            n += 1
+            out["distinct"].add(h64("limit", cfg["mtu"], size, side, api))
+            out["counters"].inc("limit_sized_sends")
+            if rec.get("nmsgs") == P.MAX_FRAGMENTS:
+                out["counters"].inc("sends_of_exactly_max_fragments")
+            w.run_until(lambda ww: bool(rec["cb"]), P.MAX_FRAGMENTS * 2 + 600)
+            w.step(20)
+        c.updates_per_step = ups
+        healed = run.settle([c], min_ticks=20, horizon=30.0)
+        T.final_checks(run, [c], healed)
+        out["counters"].inc("cases", n)
+        if len(out["samples"]) < 2:
+            out["samples"].append({"scenario": "limit", "mtu": cfg["mtu"], "limit_bytes": limit, "sends": [(a, b, c_) for a, b, c_ in plan_]})
+        collect(run, out, PROPS, {"kind": "limit", "mtu": cfg["mtu"]})
     return n
 
 
@@ -749,6 +791,8 @@ def run_shard(cfg):
                 "violations": out["violations"], "samples": out["samples"]}
     if cfg["kind"] == "sizes":
         n = run_sizes(cfg, out)
+    elif cfg["kind"] == "limit":
+        n = run_limit(cfg, out)
     else:
         n = run_faults(cfg, out)
     return {"evaluations": n, "distinct": sorted(out["distinct"]), "distinct_count": out.get("distinct_n", 0), "counters": dict(out["counters"]),
@@ -764,7 +808,7 @@ def finish(tier, seed, results):
                          "worlds_keep_alive_longer_than_message_timeout", "sends_from_connect_callback", "sends_from_send_callback",
                          "worlds_with_counters_near_wrap", "shared_callback_batches", "aged_sessions_fragment_ids_reused",
                          "gap_scenarios_over_32_datagrams", "reordered_ack_path_streams", "handler_raised_in_message", "client_disconnects_with_retransmissions_in_flight",
-                         "second_session_messages_ok", "worlds_with_three_clients", "mtu_raised", "mtu_lowered", "callbacks_raised", "first_callback_of_datagram_raised", "sends_while_connecting", "client_sendto_failed", "long_haul_latency_above_half_a_second", "same_length_bursts_without_references", "huge_message_scenarios", "realnet_guaranteed_delivered", "lazy_reader_phases", "identical_payload_series"], inconclusive)
+                         "second_session_messages_ok", "worlds_with_three_clients", "mtu_raised", "mtu_lowered", "callbacks_raised", "first_callback_of_datagram_raised", "sends_while_connecting", "client_sendto_failed", "long_haul_latency_above_half_a_second", "same_length_bursts_without_references", "huge_message_scenarios", "realnet_guaranteed_delivered", "lazy_reader_phases", "identical_payload_series", "sends_of_exactly_max_fragments"], inconclusive)
     cov = {
         "evaluations": m["evaluations"],
         "distinct_nontrivial": m["distinct_nontrivial"],
